@@ -828,13 +828,21 @@ CORPUS_SEED = 20260922
 
 def run_corpus(ctx, flines, fimpl, fcases):
     """FIXED CORPUS (independent of VERIF_SEED): one minimal scenario per known mechanism — the defect repaired in
-    /repo (ea42624) and the seeded changes C02-a, C02-b, C02-c"""
+    /repo (ea42624) and the seeded changes C02-a, C02-b, C02-c, C02-d"""
     orders = [("fifo", 0), ("lifo", 0)] + [("random", i) for i in range(6)]
     # fix ea42624: a share truncated inside its header must not stall the read (k other good shares exist / none exist)
     run_campaign(ctx, 2, 0, CORPUS_SEED, fixed_muts=[
         {"mutation": {"kind": "truncate", "at": 24}, "targets": [0]},
         {"mutation": {"kind": "truncate", "at": 0}, "targets": [0, 1, 2, 3]},
         {"mutation": {"kind": "truncate", "at": 3}, "targets": [1]}])
+    # C02-d: a multi-segment read that fails only AFTER >= 1 segment was delivered: the blocks of a later segment are
+    # corrupt in more than N-k shares (what was written before the error must stay a correct prefix, nothing re-sent)
+    run_campaign(ctx, 2, 0, CORPUS_SEED, fixed_muts=[
+        {"mutation": {"kind": "flip", "region": "data", "off": 40, "xor": 0xff}, "targets": [0, 1, 2]},
+        {"mutation": {"kind": "flip", "region": "data", "off": 70, "xor": 1}, "targets": [0, 1, 2, 3]},
+        {"mutation": {"kind": "flip", "region": "data", "off": 99, "xor": 0x80}, "targets": [1, 2, 3]}])
+    run_campaign(ctx, 5, 0, CORPUS_SEED, fixed_muts=[
+        {"mutation": {"kind": "flip", "region": "data", "off": 100, "xor": 0xff}, "targets": [0, 1, 2, 3, 4, 5, 6, 7]}])
     # C02-a: a self-consistent share set of ANOTHER file (own UEB) on >= k+2 servers, under several delivery orders
     run_campaign(ctx, 2, 0, CORPUS_SEED, 0, flines, fimpl, fcases, fixed_forgeries=[
         {"variant": "forged-ueb", "placement": "own", "forged_servers": [0, 1, 2, 3], "genuine_servers": [], "policy": p, "order": o}
